@@ -1,6 +1,6 @@
 """Hypothesis strategies producing JSON descriptions of finite automata.
 
-A description: {"cls": "enfa"|"nfa"|"dfa", "how": "mut"|"ctor", "order": "tsf"...,
+A description: {"cls": "enfa"|"nfa"|"dfa", "how": "mut"|"mut_q" (queries interleaved with the build)|"ctor"|"ctor_tf", "order": "tsf"...,
  "trans": [[p, a|null, q]...], "starts": [...], "finals": [...],
  "states": [extra isolated states], "symbols": [extra declared symbols]}
 Values are JSON (tuples/frozensets as tagged dicts, see common.enc).
@@ -100,8 +100,19 @@ def fa_desc(draw, cls=None, max_states=5, max_trans=12, state_pools=None, sym_po
          "starts": [enc(s) for s in starts], "finals": [enc(s) for s in finals]}
     if big:
         d["big"] = True
-    d["how"] = draw(st.sampled_from(["mut", "ctor", "mut"]))
+    d["how"] = draw(st.sampled_from(["mut", "ctor", "mut_q", "ctor_tf"]))
     d["order"] = draw(st.sampled_from(["tsf", "sft", "fts", "stf"]))
+    if c != "dfa" and d["how"] in ("mut", "mut_q") and trans and draw(st.sampled_from([0, 0, 1])) == 1:
+        # scaffolding: transitions that are added and then taken away again with remove_transition while the
+        # automaton is built (between states and over labels that stay in use, so nothing else changes)
+        ends = sorted({repr(x): x for t in trans for x in (t[0], t[2])}.items())
+        labs = sorted({repr(t[1]): t[1] for t in trans}.items())
+        cand = st.tuples(st.sampled_from([x for _r, x in ends]), st.sampled_from([x for _r, x in labs]),
+                         st.sampled_from([x for _r, x in ends]))
+        gone = [t for t in draw(st.lists(cand, min_size=1, max_size=2, unique_by=repr))
+                if repr(t) not in {repr(u) for u in trans}]
+        if gone:
+            d["removed"] = [[enc(p), enc(a), enc(q)] for p, a, q in gone]
     if allow_extra and draw(st.integers(0, 4)) == 0:
         used = {repr(x) for t in trans for x in (t[0], t[2])} | {repr(s) for s in starts + finals}
         extra = [s for s in names if repr(s) not in used]
